@@ -329,7 +329,7 @@ func execute(p Plan, fake bool) (out vk.Outcome, verr error) {
 	} else {
 		isSentinel := false
 		for i, s := range pr.sentinels {
-			if s != nil && errors.Is(err, s) {
+			if s != nil && err == s { // the very error value the call returned (all of them are comparable), not something built around it
 				if pr.calls[i].Load() == 0 {
 					return out, vk.Violf("wrong-error", "returned the error of call %d, which never ran", i)
 				}
@@ -481,7 +481,7 @@ func runStorm(p StormPlan) (vk.Outcome, error) {
 		}
 		ok := false
 		for i, e := range failing {
-			if errors.Is(err, e) && calls[i].Load() > 0 {
+			if err == e && calls[i].Load() > 0 {
 				ok = true
 			}
 		}
